@@ -284,10 +284,12 @@ class C05(PropertyCheck):
         "repaired warm-start prologue (fixes/D4-fnnls-warm-start.patch) is what the model mirrors",
     ]
     search_budget_s = {"quick": 40, "thorough": 300}
+    _tier = "quick"
 
     # ------------------------------------------------------------------ generation
     def generate(self, tier, rng):
         quick = tier == "quick"
+        self._tier = tier
         P_MODES = ["none", "prod", "mask", "idx", "mask_empty", "full"]
         # 1. exhaustive sign patterns of the planted unconstrained solution, small n, all P modes
         for n in range(1, (4 if quick else 6) + 1):
@@ -315,7 +317,7 @@ class C05(PropertyCheck):
         # 3. the two reconstruction routines of inversion_util, incl. exception paths
         yield from self._recon_cases(rng, 120 if quick else 1200, nmax)
         # 4. real inversions
-        yield from self._inversion_cases(rng, 26 if quick else 220)
+        yield from self._inversion_cases(rng, 24 if quick else 220)
 
     def _solver_case(self, rng, A, b, pm, tag):
         return {"tag": tag, "kind": "solver", "A": qmat(A), "b": qlist(b),
@@ -403,9 +405,12 @@ class C05(PropertyCheck):
             # every layout at least once per run (the parameter offset of a mapper behind other objects is
             # where index bookkeeping goes wrong), then random ones
             layout = self.LAYOUTS[li] if li < len(self.LAYOUTS) else rng.choice(self.LAYOUTS)
+            # the exact model re-solves every passive-set system from scratch in big rationals (~n^4 per
+            # case): keep the quick tier's systems below ~30 parameters
+            smax = 4 if (self._tier == "quick" and layout.count("mapper") > 1) else 5
             for o in layout.split("+"):
                 if o == "mapper":
-                    objs.append({"type": "mapper", "shape": [rng.randint(3, 5), rng.randint(3, 5)],
+                    objs.append({"type": "mapper", "shape": [rng.randint(3, smax), rng.randint(3, smax)],
                                  "coefficient": q(gen.pos_dyadic(rng, 1, 4, 2))})
                 else:
                     k = rng.randint(1, 2)
